@@ -494,13 +494,119 @@ def run_seq(case):
             "ops": trace}
 
 
+def run_chain(case):
+    """symref chains of every length 1..8 (files backend): wherever C git resolves the chain, dulwich must read the same value, list the
+    name in as_dict/keys, and a write/add/delete through the head of the chain must land on the final target and leave every link a
+    symref.  Chains C git refuses to resolve are only required not to be read as a value."""
+    from dulwich.repo import Repo
+    rng = random.Random(case["seed"])
+    viol, stats = [], {}
+    d, ids = fresh_repo_for_chain()
+    try:
+        for L in range(1, 9):
+            tgt = rng.choice([b"refs/heads/master", b"refs/heads/absent%d" % L, b"refs/tags/t%d" % L])
+            via_head = rng.random() < 0.3
+            names = [b"refs/heads/s%d_%d" % (L, i) for i in range(1, L + 1)]
+            packed = rng.random() < 0.3
+            if tgt.startswith(b"refs/tags/"):
+                core.git(["update-ref", tgt.decode(), ids[1].decode()], cwd=d)
+            r = Repo(d)
+            try:
+                for i, n in enumerate(names):
+                    r.refs.set_symbolic_ref(n, names[i + 1] if i + 1 < len(names) else tgt)
+                if via_head:
+                    r.refs.set_symbolic_ref(b"HEAD", names[0])
+                if packed:
+                    r.refs.pack_refs(all=True)
+            finally:
+                r.close()
+            head = b"HEAD" if via_head else names[0]
+            g = core.git(["rev-parse", "--verify", "-q", head.decode()], cwd=d, check=False)
+            gval = g.stdout.strip() if g.returncode == 0 else None
+            exists = not tgt.startswith(b"refs/heads/absent")
+            git_resolves = gval is not None or (not exists and core.git(["symbolic-ref", "-q", head.decode()], cwd=d, check=False).returncode == 0 and
+                                                L + (1 if via_head else 0) <= 4)
+            tag = "len=%d%s%s" % (L + (1 if via_head else 0), "/target-absent" if not exists else "", "/packed" if packed else "")
+            stats["chain_cases"] = stats.get("chain_cases", 0) + 1
+            r = Repo(d)
+            try:
+                try:
+                    dv = r.refs[head]
+                except KeyError:
+                    dv = None
+                except Exception as e:
+                    dv = "raise:" + type(e).__name__
+                if gval is not None:
+                    stats["chains_git_resolves"] = stats.get("chains_git_resolves", 0) + 1
+                    if dv != gval:
+                        viol.append({"sig": "C16/files/chain/read-differs-from-git/%s" % tag, "dulwich": repr(dv), "git": repr(gval)})
+                    elif head not in r.refs.as_dict() or head not in r.refs.keys():
+                        viol.append({"sig": "C16/files/chain/resolvable-name-missing-from-listing/%s" % tag})
+                    else:
+                        # write through the chain
+                        new = ids[2]
+                        try:
+                            r.refs[head] = new
+                            ok = True
+                        except Exception as e:
+                            ok = "raise:" + type(e).__name__
+                        tv = core.git(["rev-parse", "--verify", "-q", tgt.decode()], cwd=d, check=False).stdout.strip()
+                        links = [core.git(["symbolic-ref", "-q", "--no-recurse" if False else "-q", n.decode()], cwd=d, check=False).returncode == 0 for n in names]
+                        raw_links = all(open(os.path.join(d, ".git", n.decode()), "rb").read().startswith(b"ref: ") for n in names if os.path.exists(os.path.join(d, ".git", n.decode())))
+                        if ok is not True or tv != new or not raw_links:
+                            viol.append({"sig": "C16/files/chain/write-through-chain-%s/%s" % ("raised" if ok is not True else ("replaced-a-link" if not raw_links else "did-not-reach-target"), tag),
+                                         "ok": ok, "target_value": repr(tv), "want": repr(new)})
+                elif exists and isinstance(dv, bytes) and not git_resolves:
+                    # git refuses (too deep); reading a value there is a disagreement with git's view
+                    viol.append({"sig": "C16/files/chain/dulwich-resolves-chain-git-refuses/%s" % tag})
+                elif not exists and L + (1 if via_head else 0) <= 4:
+                    # unborn target through a resolvable chain: add_if_new must create the final target
+                    stats["chains_unborn"] = stats.get("chains_unborn", 0) + 1
+                    try:
+                        res = r.refs.add_if_new(head, ids[3])
+                    except Exception as e:
+                        res = "raise:" + type(e).__name__
+                    tv = core.git(["rev-parse", "--verify", "-q", tgt.decode()], cwd=d, check=False).stdout.strip()
+                    if res is not True or tv != ids[3]:
+                        viol.append({"sig": "C16/files/chain/add_if_new-through-chain-did-not-create-target/%s" % tag, "res": repr(res), "target": repr(tv)})
+            finally:
+                r.close()
+            # reset HEAD for the next round
+            core.git(["symbolic-ref", "HEAD", "refs/heads/master"], cwd=d)
+            core.git(["update-ref", "refs/heads/master", ids[0].decode()], cwd=d)
+    finally:
+        shutil.rmtree(d, ignore_errors=True)
+    seen, out = set(), []
+    for v in viol:
+        if v["sig"] not in seen:
+            seen.add(v["sig"])
+            out.append(v)
+    return {"viol": out, "stats": stats, "nontrivial": ["chain:%d" % k for k in range(1, 9)], "evaluations": 8}
+
+
+def fresh_repo_for_chain():
+    if "scratch" not in _st:
+        _st["scratch"] = core.Scratch("c16-")
+    d = _st["scratch"].sub("ch%d" % random.getrandbits(40))
+    core.git(["init", "-q", d])
+    ids = []
+    for i in range(4):
+        with open(os.path.join(d, "f"), "w") as f:
+            f.write(str(i))
+        core.git(["add", "f"], cwd=d)
+        core.git(["commit", "-q", "-m", "c%d" % i], cwd=d)
+        ids.append(core.git(["rev-parse", "HEAD"], cwd=d).stdout.strip())
+    core.git(["update-ref", "refs/heads/master", ids[0].decode()], cwd=d)
+    return d, ids
+
+
 def worker_exit():
     if "scratch" in _st:
         _st["scratch"].cleanup()
 
 
 def run_case(case):
-    return {"names": run_names, "seq": run_seq}[case["kind"]](case)
+    return {"names": run_names, "seq": run_seq, "chain": run_chain}[case["kind"]](case)
 
 
 def main(ctx):
@@ -519,9 +625,13 @@ def main(ctx):
         cases.append({"kind": "seq", "seed": "%d/s/%d" % (ctx.seed, i), "n": 25})
     for i in range(ctx.budget(200, 2500)):
         cases.append({"kind": "seq", "seed": "%d/p/%d" % (ctx.seed, i), "n": 25, "plain": True, "reftable": True})
+    for i in range(ctx.budget(40, 400)):
+        cases.append({"kind": "chain", "seed": "%d/c/%d" % (ctx.seed, i)})
     ctx.rule = ("names: ALL byte strings of length 2..%d over the 20-symbol alphabet %s through check_ref_format vs a transcription of "
                 "git's check_refname_format (confirmed with the real binary on every disagreement and on a random sample); sequences: "
-                "25 ops over 9 names incl. D/F pair, symref chains, HEAD, loose/packed, pack_refs and re-open, model + git view. "
+                "25 ops over 9 names incl. D/F pair, symref chains, HEAD, loose/packed, pack_refs and re-open, model + git view; chains: symref "
+                "chains of every length 1..8 (optionally entered through HEAD, packed, to present/absent/tag targets) read, listed and written "
+                "through, against what C git resolves. "
                 "non-trivial = distinct (name feature, verdict) / distinct operation-kind set." % (L, [a.decode('latin1') for a in NAME_ALPHA]))
     ctx.explanation = "exhaustive sub-space: all %d^2..%d names; sequences are random" % (len(NAME_ALPHA), L)
     ctx.assumptions = ["sequential map model of the RefsContainer contract (None old value = unconditional, ZERO id = absent)",
